@@ -113,7 +113,8 @@ class RabbitMessageBroker(MessageBrokerT):
                 extra=logger_extra,
             )
             return
-        await self._channel.basic_ack(delivery_tag)
+        # the tag is forgotten by now: the method goes out even if the caller is cancelled
+        await asyncio.shield(self._channel.basic_ack(delivery_tag))
 
     async def nack(self, key: RoutingKeyT) -> None:
         logger_extra = {"routing_key": key}
@@ -126,7 +127,8 @@ class RabbitMessageBroker(MessageBrokerT):
                 extra=logger_extra,
             )
             return
-        await self._channel.basic_nack(delivery_tag, requeue=False)  # will trigger dlx
+        # the tag is forgotten by now: the method goes out even if the caller is cancelled
+        await asyncio.shield(self._channel.basic_nack(delivery_tag, requeue=False))  # will trigger dlx
 
     async def reject(self, key: RoutingKeyT) -> None:
         logger_extra = {"routing_key": key}
@@ -139,7 +141,8 @@ class RabbitMessageBroker(MessageBrokerT):
                 extra=logger_extra,
             )
             return
-        await self._channel.basic_reject(delivery_tag, requeue=True)
+        # the tag is forgotten by now: the method goes out even if the caller is cancelled
+        await asyncio.shield(self._channel.basic_reject(delivery_tag, requeue=True))
 
     async def requeue(
         self,
